@@ -31,7 +31,7 @@ for f in sorted(glob.glob(os.path.join(V, "seeded", "mutation_sweep_*.json"))):
 out = HEAD + "\n".join(rows) + "\n\nGaps and re-routed mutants:\n\n" + "\n".join(detail) + "\n\n"
 p = os.path.join(V, "DESIGN.md"); s = open(p).read()
 if "### 0.7 Syntactic mutation sweeps" in s:
-    a = s.index("### 0.7 Syntactic mutation sweeps"); b = s.index("---------------------------------------------------------------------------", a)
+    a = s.index("### 0.7 Syntactic mutation sweeps"); b = s.index("### 0.8 False-alarm", a) if "### 0.8 False-alarm" in s[a:] else s.index("---------------------------------------------------------------------------", a)
     s = s[:a] + out + s[b:]
 else:
     b = s.index("---------------------------------------------------------------------------", s.index("### 0.6 Per property"))
